@@ -76,8 +76,15 @@ def run_programs(run, comp, programs, timeout=3000):
         if "fatal error:" in err or "panic:" in err:
             crash = crash_history(run, comp, programs, err)
         if crash is None:
-            raise Inconclusive("driver %s failed rc=%d: %s" % (comp, rc, err[-1500:]))
-        log("  driver %s died (%s); partial history of the crashing execution recorded" % (comp, crash["h"][-1]["msg"]))
+            msg = next((ln.strip() for ln in err.splitlines() if ln.startswith(("fatal error:", "panic:", "runtime:"))), "")
+            if not msg:
+                raise Inconclusive("driver %s failed rc=%d: %s" % (comp, rc, err[-1500:]))
+            # died inside the code under test (e.g. "concurrent map writes") and the execution could not be reconstructed: the crash
+            # itself is the fact; what was recorded before it is still validated
+            crash_rejection(run, comp, msg, None)
+            log("  driver %s died (%s)" % (comp, msg))
+        else:
+            log("  driver %s died (%s); partial history of the crashing execution recorded" % (comp, crash["h"][-1]["msg"]))
     hists, fines, cur = [], [], None
     for e in evs:
         if e["ev"] == "summary":
